@@ -21,6 +21,7 @@ type cell struct {
 	State    string // missing | equal | different
 	Obsolete bool
 	Dir      string
+	FreshDir bool // the snapshot directory (three levels) does not exist before the run
 }
 
 func updPtr(u int) *bool {
@@ -122,9 +123,9 @@ func entryIDs(es []vkit.SnapEntry) []string {
 }
 
 // checkC05 sweeps the complete mode table with real environment variables:
-// 16 child processes (CI x UPDATE_SNAPS x Sort), 90 cells each.
+// 16 child processes (CI x UPDATE_SNAPS x Sort), 90 + 15 cells each.
 func checkC05(c *vkit.Ctx) {
-	c.P.Rule = "complete product CI{on,off} x Update{unset,true,false} x UPDATE_SNAPS{unset,true,clean,other} x Sort{off,on} x entry point(5) x entry state{missing,equal,different} x obsolete{absent,present} = 1440 cells, swept for three value families (plain, blank stored value, hostile lines); 16 real child processes per sweep (environment variables CI / UPDATE_SNAPS set for real, Clean option) each running 90 cells in separate absolute directories, then Clean; oracle: literal mode table for the call outcome and for the per-path directory delta of the Match phase and of the Clean phase (backdated mtimes: untouched means not written), Clean summary verbs and lists; non-trivial = every cell (each is a distinct configuration); the table is swept completely on every run; thorough repeats it for several value/name seeds and adds an strace witness on CI cells"
+	c.P.Rule = "complete product CI{on,off} x Update{unset,true,false} x UPDATE_SNAPS{unset,true,clean,other} x Sort{off,on} x entry point(5) x entry state{missing,equal,different} x obsolete{absent,present} = 1440 cells, swept for three value families (plain, blank stored value, hostile lines); 16 real child processes per sweep (environment variables CI / UPDATE_SNAPS set for real, Clean option) each running 90 cells in separate absolute directories plus 15 cells whose snapshot directory does not exist yet (a rejected call must leave no directory behind), then Clean; oracle: literal mode table for the call outcome and for the per-path directory delta of the Match phase and of the Clean phase (backdated mtimes: untouched means not written), Clean summary verbs and lists; non-trivial = every cell (each is a distinct configuration); the table is swept completely on every run; thorough repeats it for several value/name seeds and adds an strace witness on CI cells"
 	c.P.Assumptions = []string{"children run with a minimal environment plus one of eleven CI-on variable sets (CI=true|1|empty, GITHUB_ACTIONS, GITLAB_CI, CIRCLECI, BUILD_NUMBER, RUN_ID, CONTINUOUS_INTEGRATION) or, for CI off, nothing or CI=false (alone, or overriding a vendor variable) - the detection rule is ciinfo's", "strace (thorough) is a second witness only; the digest decides"}
 	p, done := workerProgram(c, "")
 	defer done()
@@ -206,6 +207,24 @@ func runC05Proc(c *vkit.Ctx, p *Program, caseIdx, round int, ci bool, updVar str
 			}
 		}
 	}
+	// fifteen more cells whose snapshot directory does not exist yet: a forbidden call
+	// must not leave a directory behind either
+	for upd := 0; upd < 3; upd++ {
+		for _, api := range apis5 {
+			name := fmt.Sprintf("c%03d", n)
+			n++
+			cl := cell{Name: name, Upd: upd, API: api, State: "missing", Dir: filepath.Join(cellsRoot, name, "not", "there-yet"), FreshDir: true}
+			test := top + "/" + name
+			in, _ := liveVal(api, "live")
+			node := &Node{Calls: []Call{{API: api, Val: in, Dir: cl.Dir, File: "cell", Update: updPtr(upd)}}}
+			if !multiFile(api) {
+				node.Calls[0].File = ""
+			}
+			scn.Nodes[test] = node
+			topNode.Subs = append(topNode.Subs, name)
+			cells = append(cells, cl)
+		}
+	}
 	// what every cell directory holds before the run
 	before := map[string][]vkit.SnapEntry{}
 	for _, cl := range cells {
@@ -269,6 +288,27 @@ func runC05Proc(c *vkit.Ctx, p *Program, caseIdx, round int, ci bool, updVar str
 		if len(crs) > 1 && crs[1].Outcome != vkit.Passed {
 			c.Violate("mode-table-outcome", "", fmt.Sprintf("%s cell %+v: second (equal) call got %s", procDesc, cl, crs[1].Outcome), in)
 			continue
+		}
+		if cl.FreshDir {
+			c.Count("fresh_directory_cells", 1)
+			if !mayCreate {
+				var left []string
+				for pth := range post {
+					if pth == cl.Name || strings.HasPrefix(pth, cl.Name+"/") {
+						left = append(left, pth)
+					}
+				}
+				for pth := range pre {
+					if (pth == cl.Name || strings.HasPrefix(pth, cl.Name+"/")) && post[pth].Type == "" {
+						left = append(left, pth)
+					}
+				}
+				if len(left) > 0 {
+					sort.Strings(left)
+					c.Violate("forbidden-call-created-directory", "", fmt.Sprintf("%s cell %+v: the call was rejected but left %v behind", procDesc, cl, left), in)
+					continue
+				}
+			}
 		}
 		// Match phase: which paths of the cell directory were written
 		rel := func(pth string) string { r, _ := filepath.Rel(cellsRoot, pth); return r }
@@ -357,7 +397,7 @@ func runC05Proc(c *vkit.Ctx, p *Program, caseIdx, round int, ci bool, updVar str
 			c.Violate("clean-touched-live-standalone", "", fmt.Sprintf("%s cell %+v", procDesc, cl), in)
 			continue
 		}
-		c.Case(vkit.Hash(ci, updVar, sortOpt, cl.Upd, cl.API, cl.State, cl.Obsolete, round), true)
+		c.Case(vkit.Hash(ci, updVar, sortOpt, cl.Upd, cl.API, cl.State, cl.Obsolete, cl.FreshDir, round), true)
 		if cl.Name == "c007" {
 			c.Sample(map[string]any{"process": procDesc, "cell": cl, "outcome": got, "clean_deletes": deletes, "clean_sorts": sorts})
 		}
